@@ -141,6 +141,7 @@ class Job:
 
 class Driver:
     """One real Manager under test + the environment the spec leaves to the schedule."""
+    together_runs = 0
 
     def __init__(self, sizes: dict[str, int], cap: int, fast_disk: bool = False, prefix: str = "t", configured: int | None = None):
         self.sizes, self.cap, self.fast_disk = sizes, cap, fast_disk
@@ -309,6 +310,31 @@ class Driver:
             return None
         raise ValueError(act)
 
+    def page_in_together(self, keys: list[str]) -> None:
+        """The successful page-in jobs of `keys` run at the same time on the reader pool, their reads interleaved chunk by chunk."""
+        jobs = [next(j for j in self.jobs if j.kind == "in" and j.key == k) for k in keys]
+        barrier = threading.Barrier(len(jobs))
+
+        def run(j):
+            _LOCKSTEP[threading.get_ident()] = barrier
+            try:
+                self.m.disk._page_in(j.shmid, j.size, j.cb)
+            finally:
+                _LOCKSTEP.pop(threading.get_ident(), None)
+
+        ths = [threading.Thread(target=run, args=(j,), daemon=True) for j in jobs]
+        for t in ths:
+            t.start()
+        for t in ths:
+            t.join(10)
+        if any(t.is_alive() for t in ths):
+            raise RuntimeError("concurrent page-in jobs did not finish")
+        for j in jobs:
+            self.jobs.remove(j)
+        for k in keys:
+            if k not in self.m.datasets:
+                self.readers[k] = []
+
     # ---- projection
     def segkind(self, k: str) -> str:
         sid = self.shmid.get(k)
@@ -357,6 +383,41 @@ class Driver:
 
 
 _FAIL_THREADS: set[int] = set()
+_LOCKSTEP: dict[int, threading.Barrier] = {}      # thread -> barrier shared by the page-in jobs that run at the same time
+
+
+class _LockstepFile:
+    """A file of the page directory read by one of several concurrent page-in jobs: after every read the job waits until its
+    peers have read too, i.e. the reads of the jobs interleave chunk by chunk (a schedule the 4-thread reader pool can produce)."""
+
+    def __init__(self, f, barrier):
+        self.f, self.barrier = f, barrier
+
+    def _sync(self):
+        try:
+            self.barrier.wait(timeout=2)
+        except threading.BrokenBarrierError:
+            pass
+
+    def read(self, *a):
+        r = self.f.read(*a)
+        self._sync()
+        return r
+
+    def readinto(self, b):
+        r = self.f.readinto(b)
+        self._sync()
+        return r
+
+    def __enter__(self):
+        return self
+
+    def __exit__(self, *a):
+        self.f.close()
+        return False
+
+    def __getattr__(self, name):
+        return getattr(self.f, name)
 
 
 def _failing_open(*a, **k):
@@ -364,7 +425,9 @@ def _failing_open(*a, **k):
     if threading.get_ident() in _FAIL_THREADS:
         raise OSError("injected disk failure")
     import builtins
-    return builtins.open(*a, **k)
+    f = builtins.open(*a, **k)
+    b = _LOCKSTEP.get(threading.get_ident())
+    return _LockstepFile(f, b) if b is not None and "r" in (a[1] if len(a) > 1 else k.get("mode", "r")) else f
 
 
 # ---- the specification's state in the same shape
@@ -406,10 +469,28 @@ def replay(behaviour: list[tuple[str, dict]], sizes: dict[str, int], cap: int, f
     have no real counterpart and states are compared whenever the spec has no page-out job pending."""
     d = Driver(sizes, cap, fast_disk, prefix, configured)
     observed = []
+    together: list[str] = []      # keys of consecutive successful InDone steps: their jobs run concurrently at the last of them
     try:
-        for i, (label, s) in enumerate(behaviour[1:], start=2):
+        steps = list(enumerate(behaviour[1:], start=2))
+        for pos, (i, (label, s)) in enumerate(steps):
             last = s["last"]
             exp = spec_projection(s)
+            if last[0] == "InDone" and last[2] == "ok" and last[1] not in together:
+                nxt = steps[pos + 1][1][1]["last"] if pos + 1 < len(steps) else ("",)
+                more = nxt[0] == "InDone" and nxt[2] == "ok" and nxt[1] != last[1] and nxt[1] not in together
+                if more or together:
+                    together.append(last[1])
+                    if more:
+                        observed.append(dict(observed[-1]) if observed else {})
+                        continue
+                    try:
+                        d.page_in_together(together)
+                    except Exception as e:
+                        return {"steps": i - 1, "mismatch": {"step": i, "action": list(last), "harness_error": repr(e)[:300]},
+                                "observed": observed}
+                    together = []
+                    last = ("InDoneTogether",)
+                    Driver.together_runs += 1
             if fast_disk and last[0] in ("OutHalf1", "OutHalf2"):
                 for k in sizes:
                     if k not in d.m.datasets:
@@ -419,7 +500,7 @@ def replay(behaviour: list[tuple[str, dict]], sizes: dict[str, int], cap: int, f
                     continue
                 last = ("FastDiskDone",)
             try:
-                ans = d.apply(last) if last[0] != "FastDiskDone" else None
+                ans = d.apply(last) if last[0] not in ("FastDiskDone", "InDoneTogether") else None
             except Exception as e:  # the harness could not perform the step
                 return {"steps": i - 1, "mismatch": {"step": i, "action": list(last), "harness_error": repr(e)[:300]},
                         "observed": observed}
